@@ -245,6 +245,7 @@ def flush_protocol(ctx, prog, rule):
     # guard offset > 0
     # the partial page is emitted only on the outcome "offset != 0" of a test of the cursor
     okg = False
+    skipped, guards_seen = [], False
     for bi in f.cfg():
         te = int_test_edges(f, R, bi)
         cut = None
@@ -262,7 +263,13 @@ def flush_protocol(ctx, prog, rule):
         if cut and S.steps["emit"]:
             g = cfg_without_edges(f, cut)
             okg = okg or all(b not in reach(g, [0]) for b in S.steps["emit"])
+            # and the other way round: with offset > 0 no successful path skips the write (whatever else the buffer holds)
+            for _, nz in cut:
+                if f.ok_reachable(removed=S.steps["emit"], start=[nz]) is not None:
+                    skipped.append(f.file_line(bi))
+            guards_seen = True
     ctx.ob(rule, "non-empty-guard/%s" % short(f.path), okg, "the partial page is written when self.offset > 0")
+    ctx.ob(rule, "non-empty-always-written/%s" % short(f.path), guards_seen and not skipped, "with self.offset > 0 every successful path of flush writes the page (no further condition): %s" % (skipped or "holds"))
     # flush does not change offset
     offs = field_assignments(f, "paged_writer::PagedWriter", "offset")
     ctx.ob(rule, "offset-unchanged/%s" % short(f.path), not offs, "flush does not modify self.offset (%d assignments)" % len(offs))
